@@ -367,8 +367,12 @@ def op_filter(w, ev, slot):
             expected = ref.take(ax, keep)
 
         def do(real, inplace):
-            r = real.filter(mkarg(), axis=AXNAME[ax], invert=invert,
-                            inplace=inplace)
+            if ev.get('pos'):
+                # the documented positional order
+                r = real.filter(mkarg(), AXNAME[ax], invert, inplace)
+            else:
+                r = real.filter(mkarg(), axis=AXNAME[ax], invert=invert,
+                                inplace=inplace)
             return r, None
         res = _flagged(w, ev, slot, 'filter', do, expected,
                        'filter.unknown_id' if unknown else 'filter.result')
@@ -413,6 +417,8 @@ def op_remove_empty(w, ev, slot):
     name = ('observation', 'sample', 'whole')[axis]
 
     def do(real, inplace):
+        if ev.get('pos'):
+            return real.remove_empty(name, inplace), None
         return real.remove_empty(axis=name, inplace=inplace), None
     return _flagged(w, ev, slot, 'remove_empty', do, exp,
                     'remove_empty.result')
@@ -477,6 +483,8 @@ def op_sort_order(w, ev, slot):
 
     def do(real):
         arg = list(names) if form == 0 else np.array(names)
+        if ev.get('pos'):
+            return real.sort_order(arg, AXNAME[ax])
         return real.sort_order(arg, axis=AXNAME[ax])
     out = _newtable(w, ev, slot, 'sort_order', do, expected,
                     'sort_order.unknown_id' if unknown else 'reorder.result')
@@ -602,6 +610,9 @@ def op_update_ids(w, ev, slot):
             expected.ids[ax] = new
 
     def do(real, inplace):
+        if ev.get('pos'):
+            return real.update_ids(dict(idmap), AXNAME[ax], strict,
+                                   inplace), None
         return real.update_ids(dict(idmap), axis=AXNAME[ax], strict=strict,
                                inplace=inplace), None
     return _flagged(w, ev, slot, 'update_ids', do, expected, 'rename.result')
@@ -736,10 +747,10 @@ def op_transform(w, ev, slot):
     def do(real, inplace):
         rec = Recorder(fault)
         f = CB.make_trans(fam, salt, rec)
-        try:
+        if ev.get('pos'):
+            r = real.transform(f, AXNAME[ax], inplace)
+        else:
             r = real.transform(f, axis=AXNAME[ax], inplace=inplace)
-        except InjectedFault:
-            raise
 
         def post():
             _check_nz_calls(w, rec, ref, ax, 'transform.args', 'transform')
@@ -780,6 +791,8 @@ def op_norm(w, ev, slot):
         return 'skip:overflow'
 
     def do(real, inplace):
+        if ev.get('pos'):
+            return real.norm(AXNAME[ax], inplace), None
         return real.norm(axis=AXNAME[ax], inplace=inplace), None
     return _flagged(w, ev, slot, 'norm', do, expected, 'norm.result',
                     approx=_approx_cmp(w, 'norm.result', 1e-12))
@@ -791,6 +804,8 @@ def op_pa(w, ev, slot):
     expected.m = (ref.m != 0).astype(float)
 
     def do(real, inplace):
+        if ev.get('pos'):
+            return real.pa(inplace), None
         return real.pa(inplace=inplace), None
     return _flagged(w, ev, slot, 'pa', do, expected, 'pa.result')
 
@@ -835,6 +850,8 @@ def op_rankdata(w, ev, slot):
             w.fail('rank.result', what + ': ' + d)
 
     def do(real, inplace):
+        if ev.get('pos'):
+            return real.rankdata(AXNAME[ax], inplace, method), None
         return real.rankdata(axis=AXNAME[ax], inplace=inplace,
                              method=method), None
     return _flagged(w, ev, slot, 'rankdata', do, expected, 'rank.result',
@@ -946,9 +963,16 @@ def op_subsample(w, ev, slot):
             w.fail('subsample.seed', 'same seed gave a different table: ' + d)
         return exp
 
+    def flag(b):
+        # the documented "boolean" may arrive as a numpy bool or 0/1
+        form = ev.get('flagform', 0) % 3
+        return b if form == 0 else (np.bool_(b) if form == 1 else int(b))
+
     def do(real):
-        return real.subsample(n, axis=AXNAME[ax], by_id=by_id,
-                              with_replacement=wr, seed=seed)
+        if ev.get('pos'):
+            return real.subsample(n, AXNAME[ax], flag(by_id), flag(wr), seed)
+        return real.subsample(n, axis=AXNAME[ax], by_id=flag(by_id),
+                              with_replacement=flag(wr), seed=seed)
     return _newtable(w, ev, slot, 'subsample', do, None, 'subsample.result',
                      adopt=adopt)
 
